@@ -11,6 +11,8 @@
   `bases l` = the gene's coordinates in transcription order (Spec/ProtDna.lean); `sliceL x a b = x[a:b]`.
 -/
 import ASV.Proofs.ProtDna
+import ASV.Proofs.ProtDnaRebuild
+import ASV.Proofs.ProtDnaConvert
 namespace ASV.C09
 open ASV ASV.ProtDna
 
@@ -69,7 +71,7 @@ theorem prepeptide_partition (l : Loc) (hwf : geneWF l = true) (ld tl : Nat) (h 
       bases c = sliceL (bases l) (3 * ld) (3 * ((l.len / 3).toNat - tl)) ∧
       optBases b = sliceL (bases l) (3 * ((l.len / 3).toNat - tl)) (3 * (l.len / 3).toNat) ∧
       optBases a ++ bases c ++ optBases b = (bases l).take (3 * (l.len / 3).toNat) := by
-  obtain ⟨a, c, b, hm, ha0, hb0, ha, hc, hb⟩ := prepeptide_sections l hwf ld tl h
+  obtain ⟨a, c, b, hm, ha0, hb0, ha, hc, hb, _⟩ := prepeptide_sections l hwf ld tl h
   have hpos := len_nonneg l hwf
   refine ⟨a, c, b, hm, ha0, hb0, ha, hc, hb, ?_⟩
   rw [ha, hc, hb, sliceL_append _ _ _ _ (by omega) (by omega), sliceL_append _ _ _ _ (by omega) (by omega),
@@ -111,6 +113,98 @@ theorem frameshift_refused (l : Loc) (hwf : geneWF l = true) (c : Int) (hg : fra
     frameshift l c false = .valueError ∨ frameshift l c false = .assertion :=
   frameshift_fails l hwf c hg
 
+
+/-- THE WRITE-OUT / RE-READ CYCLE, repaired code (fix D107, `_combine_sections`): a prepeptide written with
+    `to_biopython` and rebuilt by `Prepeptide.from_biopython` from its core feature gets a location `r` that lists
+    exactly the gene's translated bases `bases l [0 : 3⌊len/3⌋]` in transcription order and is again a
+    well-formed gene — for every gene shape (several exons, reverse strand, origin-spanning, overlapping exons) —
+    and positioning leader/core/tail AGAIN from the rebuilt prepeptide gives the same slices of the ORIGINAL
+    gene.  The only refusal is the constructor's (two exons of `r` ending at the same coordinate). -/
+theorem prepeptide_rebuild_repaired (l : Loc) (hwf : geneWF l = true) (ld tl : Nat) (h : (ld : Int) + tl < l.len / 3) :
+    ∃ r, bases r = (bases l).take (3 * (l.len / 3).toNat) ∧ geneWF r = true ∧
+      prepeptideRebuild true l ld tl = (if containsOverlappingExons r then .valueError else .ok r) ∧
+      ∃ a c b, prepeptideSections r ld tl = .ok (a, c, b) ∧
+        (a = none ↔ ld = 0) ∧ (b = none ↔ tl = 0) ∧
+        optBases a = sliceL (bases l) 0 (3 * ld) ∧
+        bases c = sliceL (bases l) (3 * ld) (3 * ((l.len / 3).toNat - tl)) ∧
+        optBases b = sliceL (bases l) (3 * ((l.len / 3).toNat - tl)) (3 * (l.len / 3).toNat) :=
+  rebuild_cycle true l hwf ld tl h
+    (fun secs hne hok _ => by simpa [rebuildLocation] using combineSections_ok l.strand secs hne hok)
+    (fun hf => by cases hf)
+
+/-- the same for the UNREPAIRED code (`build_location_from_others`), which is only right when each of its merges
+    joins parts that really adjoin.  Full statement (false, see the witness below):
+      `∀ l ld tl, geneWF l → ld + tl < len/3 → <conclusion of prepeptide_rebuild_repaired with `false`>`.
+    Missing part = the hypothesis `rebuildSound l ld tl` (class predicate of KF-C09-prepeptide-false-merge: it
+    fails only for genes whose exons are not listed in coordinate order). -/
+theorem prepeptide_rebuild_unrepaired_partial (l : Loc) (hwf : geneWF l = true) (ld tl : Nat)
+    (h : (ld : Int) + tl < l.len / 3) (hs : rebuildSound l ld tl = true) :
+    ∃ r, bases r = (bases l).take (3 * (l.len / 3).toNat) ∧ geneWF r = true ∧
+      prepeptideRebuild false l ld tl = (if containsOverlappingExons r then .valueError else .ok r) ∧
+      ∃ a c b, prepeptideSections r ld tl = .ok (a, c, b) ∧
+        (a = none ↔ ld = 0) ∧ (b = none ↔ tl = 0) ∧
+        optBases a = sliceL (bases l) 0 (3 * ld) ∧
+        bases c = sliceL (bases l) (3 * ld) (3 * ((l.len / 3).toNat - tl)) ∧
+        optBases b = sliceL (bases l) (3 * ((l.len / 3).toNat - tl)) (3 * (l.len / 3).toNat) :=
+  rebuild_cycle false l hwf ld tl h
+    (fun secs hne hok hsnd => by
+      simpa [rebuildLocation] using rebuildUnrepaired_ok l.strand secs hne hok (hsnd rfl))
+    (fun _ x hx => by simpa [rebuildSound, hx] using hs)
+
+/-- partial genes (NCBI `<`/`>` positions): when the gene's 3' end is ambiguous (`amb`), a protein end beyond the
+    product is truncated to the product — the annotation then covers exactly `bases[3s : 3⌊len/3⌋]`; in every other
+    situation (exact end, or an end inside the product) the call is the ordinary one, so `sub_is_slice`,
+    `sub_extract_translate` and `sub_refused` apply verbatim -/
+theorem sub_partial_gene (l : Loc) (hwf : geneWF l = true) (s : Nat) (e : Int) :
+    (∀ amb, (e ≤ l.len / 3 ∨ amb = false) → subLocationFuzzy amb l s e = subLocation l s e) ∧
+    ((s : Int) < l.len / 3 → l.len / 3 < e →
+      ∃ r, subLocationFuzzy true l s e = .ok r ∧
+        bases r = sliceL (bases l) (3 * s) (3 * (l.len / 3).toNat) ∧
+        coversSlice l r (3 * s) (3 * (l.len / 3).toNat) = true) := by
+  refine ⟨fun amb h => subLocationFuzzy_eq amb l s e h, fun hs he => ?_⟩
+  have hpos := len_nonneg l hwf
+  obtain ⟨r, hr, hb, _, _, hc⟩ := sub_is_slice l hwf s (l.len / 3).toNat (by omega) (by omega)
+  refine ⟨r, ?_, hb, hc⟩
+  rw [subLocationFuzzy_truncates l s e (by omega) hs he]
+  have : ((l.len / 3).toNat : Int) = l.len / 3 := by omega
+  rw [← this]; exact hr
+
+/-- the `codon_start` qualifier as GenBank text: only its first character counts; a digit behaves as that
+    number (so `frameshift_drops_offset` / `frameshift_refused` apply), anything else is refused -/
+theorem frameshift_text (l : Loc) (raw : String) (undo : Bool) :
+    (∀ c, codonStartOfText raw = some c → frameshiftText l raw undo = frameshift l c undo) ∧
+    (codonStartOfText raw = none → frameshiftText l raw undo = .valueError) := by
+  constructor
+  · intro c hc; simp [frameshiftText, hc]
+  · intro hc; simp [frameshiftText, hc]
+
+/-- `convert_protein_position_to_dna` itself (the public `Location` method; since fix D8 only the simple-location
+    branch feeds an annotation).  Full statement — "for every well-formed gene the pair delimits the range's
+    bases" — is FALSE for compound locations whose list order is not the coordinate order (origin-spanning genes:
+    witness below; the suite pins the sorted reading).  Proved part: exons listed upwards without overlap on a
+    non-reverse strand (`ascDisjointB`): the pair is (coordinate of base 3s, coordinate of base 3e-1, plus 1). -/
+theorem convert_compound_forward_partial (ps : List Part) (hwf : geneWF (.compound ps) = true)
+    (hnr : isRev (.compound ps) = false) (hasc : ascDisjointB ps = true) (s e : Nat) (hse : s < e)
+    (he : (e : Int) ≤ (Loc.compound ps).len / 3) :
+    ∃ ds de, convertProteinToDna s e (.compound ps) = .ok (ds, de) ∧
+      (bases (.compound ps))[3 * s]? = some ds ∧ (bases (.compound ps))[3 * e - 1]? = some (de - 1) ∧ ds < de :=
+  convert_compound_forward ps hwf hnr (ascDisjoint_of_B ps hasc) s e hse he
+
+/-- … and on the reverse strand with exons listed downwards without overlap (`descDisjointB`): `dna_start` is the
+    coordinate of the range's LAST base (3e-1), `dna_end` one past the coordinate of its FIRST base (3s) -/
+theorem convert_compound_reverse_partial (ps : List Part) (hwf : geneWF (.compound ps) = true)
+    (hr : isRev (.compound ps) = true) (hdesc : descDisjointB ps = true) (s e : Nat) (hse : s < e)
+    (he : (e : Int) ≤ (Loc.compound ps).len / 3) :
+    ∃ ds de, convertProteinToDna s e (.compound ps) = .ok (ds, de) ∧
+      (bases (.compound ps))[3 * e - 1]? = some ds ∧ (bases (.compound ps))[3 * s]? = some (de - 1) ∧ ds < de :=
+  convert_compound_reverse ps hwf hr (descDisjoint_of_B ps hdesc) s e hse he
+
+/-- simple locations: exact, both strands -/
+theorem convert_simple_location (p : Part) (s e : Int) (h0 : 0 ≤ s) (hse : s < e) (he : e ≤ (p.hi - p.lo) / 3) :
+    convertProteinToDna s e (.simple p)
+      = .ok (if p.strand == .rev then (p.hi - e * 3, p.hi - s * 3) else (p.lo + s * 3, p.lo + e * 3)) :=
+  convert_simple p s e h0 hse he
+
 /-! ### non-vacuity and witnesses (all decided by the kernel on the model) -/
 
 /-- D8 witnesses, now repaired: the origin-spanning forward gene join{[90:102),[0:21)} and its reverse twin -/
@@ -148,5 +242,42 @@ example : frameshift d8Fwd 4 false = .valueError ∧ frameshift (.simple ⟨5, 6
 /-- prepeptide on the origin-spanning gene: leader 3, tail 2 of 11 residues -/
 example : prepeptideSections d8Fwd 3 2 = .ok (some (.simple ⟨90, 99, .fwd⟩),
     .compound [⟨99, 102, .fwd⟩, ⟨0, 15, .fwd⟩], some (.simple ⟨15, 21, .fwd⟩)) := by decide
+
+/-- the seeded change's shape, on the repaired model: a reverse two-exon gene and the reverse origin-spanning gene
+    come back as themselves (leader 2 / tail 2, leader 3 / tail 2) -/
+example : prepeptideRebuild true (.compound [⟨50, 60, .rev⟩, ⟨30, 41, .rev⟩]) 2 2
+    = .ok (.compound [⟨50, 60, .rev⟩, ⟨30, 41, .rev⟩]) := by decide
+example : prepeptideRebuild true d8Rev 3 2 = .ok d8Rev := by decide
+example : prepeptideRebuild true (.simple ⟨30, 60, .rev⟩) 3 3 = .ok (.simple ⟨30, 60, .rev⟩) := by decide
+/-- unrepaired code on the same genes: same bases, more parts (C10's KF-C10-reverse-prepeptide-location) -/
+example : prepeptideRebuild false (.simple ⟨30, 60, .rev⟩) 3 3
+    = .ok (.compound [⟨51, 60, .rev⟩, ⟨39, 51, .rev⟩, ⟨30, 39, .rev⟩]) := by decide
+example : rebuildSound d8Rev 3 2 = true ∧ rebuildSound (.compound [⟨50, 60, .rev⟩, ⟨30, 41, .rev⟩]) 2 2 = true := by decide
+/-- negation witness of the full unrepaired statement (KF-C09-prepeptide-false-merge): exons not in coordinate
+    order; the hypothesis fails and the rebuilt location has 31 bases instead of the gene's 15 -/
+def kfShuffled : Loc := .compound [⟨16, 22, .rev⟩, ⟨0, 6, .rev⟩, ⟨22, 25, .rev⟩]
+example : geneWF kfShuffled = true ∧ rebuildSound kfShuffled 1 1 = false := by decide
+example : prepeptideRebuild false kfShuffled 1 1
+    = .ok (.compound [⟨19, 22, .rev⟩, ⟨16, 19, .rev⟩, ⟨0, 25, .rev⟩]) := by decide
+example : prepeptideRebuild true kfShuffled 1 1 = .ok kfShuffled := by decide
+
+/-- partial gene `[10:>40)`: residues [8, 12) are cut back to [8, 10); with an exact end they are refused -/
+example : subLocationFuzzy (ambiguousEnd (.simple ⟨10, 40, .fwd⟩) [(false, true)]) (.simple ⟨10, 40, .fwd⟩) 8 12
+    = .ok (.simple ⟨34, 40, .fwd⟩) := by decide
+example : subLocationFuzzy (ambiguousEnd (.simple ⟨10, 40, .fwd⟩) [(false, false)]) (.simple ⟨10, 40, .fwd⟩) 8 12
+    = .valueError := by decide
+/-- reverse partial gene `[<3:27)` in two exons: the open end is the START of the lowest exon -/
+example : ambiguousEnd (.compound [⟨21, 27, .rev⟩, ⟨3, 15, .rev⟩]) [(false, false), (true, false)] = true
+    ∧ ambiguousEnd (.compound [⟨21, 27, .rev⟩, ⟨3, 15, .rev⟩]) [(false, true), (false, false)] = false := by decide
+example : codonStartOfText "2" = some 2 ∧ codonStartOfText "3x" = some 3 ∧ codonStartOfText "2.0" = some 2
+    ∧ codonStartOfText " 2" = none ∧ codonStartOfText "-1" = none := by decide
+
+/-- `convert_*_partial`: hypotheses satisfiable, and the negation witness of the full statement (D8's origin gene:
+    the pair (0,6) is not where residues [0,2) are — base 0 of the gene is coordinate 90) -/
+example : ascDisjointB [⟨0, 6, .fwd⟩, ⟨12, 15, .fwd⟩, ⟨21, 27, .fwd⟩] = true
+    ∧ descDisjointB [⟨21, 27, .rev⟩, ⟨12, 15, .rev⟩, ⟨0, 6, .rev⟩] = true ∧ ascDisjointB d8Fwd.parts = false := by decide
+example : convertProteinToDna 1 5 (.compound [⟨0, 6, .fwd⟩, ⟨12, 15, .fwd⟩, ⟨21, 27, .fwd⟩]) = .ok (3, 27) := by decide
+example : convertProteinToDna 1 5 (.compound [⟨21, 27, .rev⟩, ⟨12, 15, .rev⟩, ⟨0, 6, .rev⟩]) = .ok (0, 24) := by decide
+example : convertProteinToDna 0 2 d8Fwd = .ok (0, 6) ∧ (bases d8Fwd)[0]? = some 90 := by decide
 
 end ASV.C09
